@@ -42,6 +42,9 @@ type c18Case struct {
 	Type    int   `json:"type"`     // 1 text, 2 binary
 	Writes  []int `json:"writes"`
 	Reads   []int `json:"reads"` // buffer sizes, cycled
+	// Comp: negotiated compression of both endpoints ("" off | takeover | no-takeover |
+	// client-nct | server-nct: the asymmetric agreements a foreign peer can cause)
+	Comp string `json:"comp,omitempty"`
 }
 
 var c18WriteSizes = []int{0, 1, 5, 4096, 65537}
@@ -99,12 +102,15 @@ func c18StreamOne(c *fw.Ctx, cs c18Case) bool {
 	c.AddTraces(1)
 	desc := fmt.Sprintf("%+v", cs)
 	cls := c18Direction(cs.AClient) + "/" + c18TypeName(cs.Type)
+	if cs.Comp != "" {
+		cls += "/" + cs.Comp
+	}
 	w := mxNewWatch(c18SpinCPU, c18BlockWall)
 	defer w.Stop()
 	ctx := w.Ctx
 
 	tA := mxNewTransport()
-	connA := mxConn(tA, cs.AClient, "")
+	connA := mxConn(tA, cs.AClient, cs.Comp)
 	defer connA.CloseNow()
 	var written []byte
 	var wfail string
@@ -135,7 +141,7 @@ func c18StreamOne(c *fw.Ctx, cs c18Case) bool {
 	connA.CloseNow()
 
 	tB := mxNewTransport(wire)
-	connB := mxConn(tB, !cs.AClient, "")
+	connB := mxConn(tB, !cs.AClient, cs.Comp)
 	defer connB.CloseNow()
 	var got []byte
 	var fail, failClass string
@@ -210,6 +216,17 @@ func c18StreamCases(thorough bool) []c18Case {
 			for _, typ := range []int{2, 1} {
 				for _, ac := range []bool{true, false} {
 					out = append(out, c18Case{AClient: ac, Type: typ, Writes: w, Reads: r})
+				}
+			}
+		}
+	}
+	// every negotiated compression agreement, symmetric or not (later writes repeat
+	// what earlier ones sent, so the two contexts have to agree)
+	for _, comp := range []string{"takeover", "no-takeover", "client-nct", "server-nct"} {
+		for _, w := range ws {
+			for _, r := range [][]int{{4096}, {1, 70000}} {
+				for _, ac := range []bool{true, false} {
+					out = append(out, c18Case{AClient: ac, Type: 2, Writes: w, Reads: r, Comp: comp})
 				}
 			}
 		}
